@@ -51,6 +51,117 @@ def _tail_return(body):
     return None
 
 
+def _dead_after(fn, stmt):
+    """caller names that are not read after ``stmt`` (document order; everything counts as read if the statement sits in a loop)"""
+    for a in A.ancestors(stmt):
+        if isinstance(a, (ast.For, ast.While, ast.AsyncFor)):
+            return set()
+        if isinstance(a, A.FUNC_TYPES):
+            break
+    seen = False
+    later = set()
+    names = set()
+
+    def rec(n):
+        nonlocal seen
+        if n is stmt:
+            seen = True
+            names.update(x.id for x in ast.walk(n) if isinstance(x, ast.Name))
+            return
+        if isinstance(n, ast.Name):
+            names.add(n.id)
+            if seen and isinstance(n.ctx, ast.Load):
+                later.add(n.id)
+        for ch in ast.iter_child_nodes(n):
+            rec(ch)
+    for b in fn.body:
+        rec(b)
+    return names - later if seen else set()
+
+
+def single_exit(stmts, rname):
+    """structured single-exit form of a statement list: every `return E` becomes `rname = E` and the statements it would have skipped move into the
+    complementary branch.  Returns the new list, or None when a return sits where that is not possible (inside a loop, in the middle of a try ...)."""
+    def has_ret(x):
+        return any(isinstance(n, ast.Return) for n in A.walk_local(x)) or isinstance(x, ast.Return)
+
+    def rec(lst):
+        out = []
+        for i, s in enumerate(lst):
+            rest = lst[i + 1:]
+            if isinstance(s, ast.Return):
+                out.append(ast.copy_location(ast.Assign(targets=[ast.Name(id=rname, ctx=ast.Store())], value=s.value if s.value is not None else ast.Constant(value=None)), s))
+                return out
+            if not has_ret(s):
+                out.append(s)
+                continue
+            if isinstance(s, ast.If):
+                b_term, o_term = A.terminates(s.body), bool(s.orelse) and A.terminates(s.orelse)
+                body = rec(s.body)
+                orelse = rec(s.orelse) if s.orelse else []
+                if body is None or orelse is None:
+                    return None
+                if rest:
+                    r = rec(rest)
+                    if r is None:
+                        return None
+                    if b_term and not o_term:
+                        orelse = orelse + r
+                    elif o_term and not b_term:
+                        body = body + r
+                    elif b_term and o_term:
+                        pass   # rest unreachable
+                    else:
+                        return None   # a return on some path of a branch that can also fall through
+                else:
+                    if (has_ret_list(s.body) and not b_term) or (s.orelse and has_ret_list(s.orelse) and not o_term):
+                        # conditional return followed by nothing: falling through returns None, which the caller handles (ret initialised to None)
+                        pass
+                new = ast.copy_location(ast.If(test=s.test, body=body or [ast.Pass()], orelse=orelse), s)
+                out.append(new)
+                return out
+            if isinstance(s, ast.With):
+                if rest and has_ret(s):
+                    if not A.terminates(s.body):
+                        return None
+                body = rec(s.body)
+                if body is None:
+                    return None
+                out.append(ast.copy_location(ast.With(items=s.items, body=body), s))
+                if rest and not A.terminates(s.body):
+                    r = rec(rest)
+                    if r is None:
+                        return None
+                    out.extend(r)
+                return out
+            if isinstance(s, ast.Try):
+                if rest:
+                    return None
+                if s.finalbody and any(has_ret(x) for x in s.finalbody):
+                    return None
+                body = rec(s.body)
+                orelse = rec(s.orelse) if s.orelse else []
+                if body is None or orelse is None:
+                    return None
+                # a return in the try body skips the else block: only allowed when there is no else block
+                if has_ret_list(s.body) and s.orelse:
+                    return None
+                handlers = []
+                for h in s.handlers:
+                    hb = rec(h.body)
+                    if hb is None:
+                        return None
+                    handlers.append(ast.copy_location(ast.ExceptHandler(type=h.type, name=h.name, body=hb), h))
+                out.append(ast.copy_location(ast.Try(body=body, handlers=handlers, orelse=orelse, finalbody=s.finalbody), s))
+                return out
+            return None   # return inside a loop or another compound statement
+        return out
+
+    def has_ret_list(lst):
+        return any(has_ret(x) for x in lst)
+    return rec(list(stmts))
+
+
 def _returns_only_last(body):
     rets = [n for s in body for n in A.walk_local(s) if isinstance(n, ast.Return)]
     if not rets:
@@ -136,8 +247,9 @@ class Inliner:
                     return None
         return env
 
-    def _instantiate(self, fn, env):
-        """clone of the callee body with parameters substituted and locals renamed apart"""
+    def _instantiate(self, fn, env, dead_after=()):
+        """clone of the callee body with parameters substituted and locals renamed apart.  ``dead_after``: caller names that are not read after the
+        call - a parameter bound to such a name may simply keep using (and overwriting) it."""
         self.counter += 1
         tag = "__h%d_" % self.counter
         body = A.clone(_docstring_free(fn.body))
@@ -147,7 +259,11 @@ class Inliner:
         # parameters that are re-assigned inside the callee become renamed locals initialised from the argument
         pre = []
         sub = {}
+        keep = {}
         for p, v in env.items():
+            if p in assigned and isinstance(v, ast.Name) and v.id in dead_after and v.id not in keep.values():
+                keep[p] = v.id
+                continue
             if p in assigned or not isinstance(v, (ast.Name, ast.Constant)):
                 # evaluate the argument once, before the callee's statements (call-by-value)
                 pre.append(ast.Assign(targets=[ast.Name(id=tag + p, ctx=ast.Store())], value=A.clone(v), lineno=getattr(fn, "lineno", 0), col_offset=0))
@@ -157,6 +273,8 @@ class Inliner:
         for p in env:
             if p not in sub:
                 ren[p] = tag + p
+        for p, x in keep.items():
+            ren[p] = x
 
         class T(ast.NodeTransformer):
             def visit_Name(self, n):
@@ -252,12 +370,20 @@ class Inliner:
             if cfn is fn or A.qualname(cfn) == A.qualname(fn):
                 return None
             body0 = _docstring_free(cfn.body)
-            if not _returns_only_last(body0) or any(isinstance(n, (ast.Yield, ast.YieldFrom)) for n in ast.walk(cfn)):
+            if any(isinstance(n, (ast.Yield, ast.YieldFrom)) for n in ast.walk(cfn)):
                 return None
+            multi = not _returns_only_last(body0)
             env = me._bind(call, cfn, recv)
             if env is None:
                 return None
-            body = me._instantiate(cfn, env)
+            body = me._instantiate(cfn, env, dead_after=_dead_after(fn, s))
+            if multi:
+                rname = "__h%d_ret" % me.counter
+                se = single_exit(body, rname)
+                if se is None:
+                    return None
+                body = [ast.Assign(targets=[ast.Name(id=rname, ctx=ast.Store())], value=ast.Constant(value=None), lineno=getattr(s, "lineno", 0), col_offset=0)] + se \
+                    + [ast.Return(value=ast.Name(id=rname, ctx=ast.Load()))]
             me.used[(cm, cq)] = me.used.get((cm, cq), 0) + 1
             ret = None
             if body and isinstance(body[-1], ast.Return):
